@@ -93,9 +93,12 @@ def run(ctx):
     # ---- R2 registration covers what the loaders write ---------------------------------------------
     by_loader = {}
     for reg in regs:
-        by_loader.setdefault(reg.loader.qual, []).append(reg)
+        # one loader per (function, module initialiser it stands for): closures made by one helper share their qualified name
+        by_loader.setdefault((reg.loader.qual, GROUP_INIT.get(reg.key)), []).append(reg)
     atom_classes = ("Element", "Isotope", "Ion")
-    for lq, rs in by_loader.items():
+    for (lq, ginit), rs in by_loader.items():
+        if ginit is not None and lq.count(".") > 1:
+            lq = f"{lq} [{ginit[0]}.{ginit[1]}]"
         lw.restore(lw.boot_snapshot)
         before = {oid: set(d) for oid, d in I.heap.items()}
         cbefore = {c: dict(I.classes["core." + c].attrs) for c in atom_classes}
